@@ -17,7 +17,8 @@ META = {
                    'a*attr_stride : NULL; (4) the spawned half is joined on every path; (5) mtbb (template code instantiated in a '
                    'compile-only witness TU): task_list::add links a new node after the tail when the tail is full and stores inside '
                    'capacity, run appends before creating the thread, wait joins every entry of every node then resets; parallel_for '
-                   'passes ceil((last-first)/step) iterations.',
+                   'passes ceil((last-first)/step) iterations.'
+                   ' The leaf applies the item function exactly once on every leaf path; a NULL guard of ids/results must test the array base, not base + offset.',
     'not_decided': 'exactly-once application per index at run time; behaviour for negative nthreads (outside the documented domain)',
     'assumptions': ['nthreads >= 0; grain size >= 1 (TBB precondition)'],
 }
